@@ -23,6 +23,28 @@ structure Fact where
   ownLoader : Bool
   /-- set when the extractor did not find the syntactic shape it understands -/
   shapeChanged : Option String
+  /-- how the base's parser `vm.Base.parser` is used: `"PrepareParse"` = handed to
+  `vm.PrepareParse(…)` (cloned, the clone bound to the TempVM), `"other"` = anything else
+  (cloned / used directly: a parser bound to the *base*) -/
+  baseParser : List String := []
+  /-- `X.Parse…(…)` calls on a parser value (`ParseFile`, `ParseString`, …) -/
+  parses : List String := []
+  /-- the contexts in which it evaluates a program, `X.GetValue(ctx)`: `"self.CreateContext"`
+  (`vm.CreateContext(…)`, bound to the TempVM), `"param"` (handed in by the caller),
+  `"base.CreateContext"`, `"other"` -/
+  evalCtx : List String := []
+  /-- assigns `vm.parser` -/
+  setsParser : Bool := false
+deriving Repr, DecidableEq
+
+/-- one method of the base `runtime.VM` -/
+structure VmFact where
+  method : String
+  /-- parses / autoloads with the base-bound parser: `vm.parser.Clone()`, `vm.parser.Parse…(…)`,
+  or `vm.parser` (a clone of it) handed to a call (`LoadClass(pkg, vm.parser)`) -/
+  ownParser : Bool
+  /-- `vm.M(…)` calls on itself -/
+  selfCalls : List String
 deriving Repr, DecidableEq
 
 /-- methods of the base VM that cannot register a class / interface / function (lookups
@@ -38,14 +60,18 @@ def pureBase : List String :=
 /-- the method hands work to a base method that may define something in the base -/
 def Fact.delegatesDefining (f : Fact) : Bool := !(f.baseCalls.all pureBase.contains)
 
-/-- `TempVM` methods known to reach a defining method of the base on the pinned tree
-(mirrors the `known` entries of props/C12.json plus the documented by-design ones):
-`GetOrLoadInterface`, `LoadPkg` — known finding C12-temp-autoload-through-base;
-`CompileLoad`, `RunCompiledFile` — compile mode only, documented in the code;
-`RegisterFunction`, `RegisterReflectClass` — host registration API, global by design. -/
-def Known : List String :=
-  ["GetOrLoadInterface", "LoadPkg", "CompileLoad", "RunCompiledFile", "RegisterFunction",
-   "RegisterReflectClass"]
+/-- the **intended delegations**: `TempVM` methods that hand parsing / defining work to the
+base on purpose. `CompileLoad`, `RunCompiledFile` — compile mode only, documented in the
+code; `RegisterFunction`, `RegisterReflectClass` — host registration API, global by design. -/
+def Intended : List String :=
+  ["CompileLoad", "RunCompiledFile", "RegisterFunction", "RegisterReflectClass"]
+
+/-- the known finding C12-temp-autoload-through-base (props/C12.json): these two autoload
+through the base's parser -/
+def KnownLeaks : List String := ["GetOrLoadInterface", "LoadPkg"]
+
+/-- `TempVM` methods known to reach a defining method of the base on the pinned tree -/
+def Known : List String := KnownLeaks ++ Intended
 
 /-- routing `Model.Temp` was written against, for the methods that register definitions -/
 def expectedOk (f : Fact) : Bool :=
@@ -74,5 +100,51 @@ def factOk (f : Fact) : Bool :=
 alarms, a new write-through to the base does. -/
 def WellRouted (fs : List Fact) : Bool :=
   required.all (fun m => fs.any (fun f => f.method == m)) && fs.all factOk
+
+/-! ### parsers and contexts are bound to the TempVM
+
+Classes, interfaces, traits and enums register *while parsing*, through the VM the parser is
+bound to; functions register *while running*, through the VM of the context. So a `TempVM`
+method that parses or evaluates code must do it with a parser obtained from `PrepareParse`
+(a clone bound to the TempVM) and in a context of the TempVM — never with the base's
+parser, and never by handing the code to a method of the base that parses with `vm.parser`. -/
+
+/-- one round of "uses the base-bound parser, directly or through one of its own methods" -/
+def parsingStep (vs : List VmFact) (acc : List String) : List String :=
+  (vs.filter (fun f => f.ownParser || f.selfCalls.any acc.contains)).map (·.method)
+
+/-- `P` contains every method of the base VM that parses / autoloads with the base-bound
+parser, directly or through its own methods: it is closed under `parsingStep` (so it
+includes the least such set; the translator emits that one as `vmParsing`). -/
+def closedUnder (vs : List VmFact) (P : List String) : Bool :=
+  (parsingStep vs P).all P.contains
+
+/-- strip the `@self` marker of a recorded base call -/
+def callName (c : String) : String := String.ofList (c.toList.takeWhile (· != '@'))
+
+/-- the method hands code to a method of the base that parses with the base's own parser -/
+def Fact.delegatesParsing (P : List String) (f : Fact) : Bool :=
+  f.baseCalls.any (fun c => P.contains (callName c))
+
+def parserOk (P : List String) (f : Fact) : Bool :=
+  -- the base's parser is only ever handed to `PrepareParse`
+  f.baseParser.all (· == "PrepareParse") &&
+  -- whoever parses does it with a parser from `PrepareParse`
+  (f.parses.isEmpty || f.selfCalls.contains "PrepareParse") &&
+  -- programs are evaluated in a context of the TempVM, or in the caller's
+  f.evalCtx.all (fun c => c == "self.CreateContext" || c == "param") &&
+  -- only `PrepareParse` binds `vm.parser`
+  (!f.setsParser || f.method == "PrepareParse") &&
+  -- nothing is handed to a base method that parses with the base-bound parser, except by
+  -- the intended delegations (and the known finding)
+  (Known.contains f.method || !f.delegatesParsing P)
+
+/-- **parsers bound to the TempVM**: the translator found the base's methods and `P` covers
+all of them that parse with the base-bound parser; every `TempVM` method satisfies
+`parserOk`; and the hand-written allow-list `pureBase` contains no method that the
+regenerated facts show to parse with the base's parser. -/
+def ParsersBound (vs : List VmFact) (P : List String) (fs : List Fact) : Bool :=
+  !vs.isEmpty && closedUnder vs P && fs.all (parserOk P) &&
+    pureBase.all (fun m => !P.contains (callName m))
 
 end Model.TempRoutes
